@@ -60,6 +60,12 @@ MUTATIONS = {
         "    if isinstance(a.target, BadType):\n      return\n"
         "    assert isinstance(a.target, dict), a.target\n"
         "    self.target = ClosedRecord(a.target)\n"),
+    'any_meets_ground_scalar_not_linked': (
+        "  if concrete_a == 'Any':\n    a.target = b\n    return\n",
+        "  if concrete_a == 'Any':\n"
+        "    if concrete_b in ('Num', 'Str', 'Bool', 'Time'):\n"
+        "      a.target = concrete_b\n    else:\n      a.target = b\n"
+        "    return\n"),
     'list_element_clash_ignored': (
         "      if a_element.TargetTypeClassName() == 'BadType':\n",
         "      if False:\n"),
